@@ -353,6 +353,20 @@ func checkGidSorts(w *World, r *Report, fn *ssa.Function) {
 					report(x.Pos(), "map value", g.sortOf(x.Value), cname)
 				}
 			case *ssa.Store:
+				if isGidContainer(x.Val.Type()) {
+					// a whole list or map of glyph ids stored into the output: it must be built
+					// here (and filled element by element, which the cases above check), not be
+					// the old table's value or a copy of it
+					if isOut, where := fieldOfOutput(x.Addr); isOut {
+						key := r.MkKey("gidsort", name, "glyph id table into "+where)
+						if src := oldTableSource(x.Val, 0); src != nil {
+							r.FailC("gidsort", key, []string{"oldtable"}, w.Pos(x.Pos()), fmt.Sprintf("%s of the subset is (a copy of) the source font's table loaded at %s: every glyph id in it still carries the old numbering, which is wrong as soon as a retained glyph changes position", where, w.Pos(src.Pos())), nil)
+						} else {
+							r.OK("gidsort", key, w.Pos(x.Pos()), "the table is built in this function")
+						}
+					}
+					continue
+				}
 				if !containsGlyphID(x.Val.Type()) {
 					continue
 				}
@@ -1164,4 +1178,74 @@ func instrReaches(a, b ssa.Instruction, l *natLoop) bool {
 		stack = append(stack, x.Succs...)
 	}
 	return false
+}
+
+// isGidContainer: a slice, array or map whose elements (or keys) are glyph ids.
+func isGidContainer(t types.Type) bool {
+	switch u := t.Underlying().(type) {
+	case *types.Slice:
+		return isGlyphID(u.Elem())
+	case *types.Array:
+		return isGlyphID(u.Elem())
+	case *types.Map:
+		return isGlyphID(u.Key()) || isGlyphID(u.Elem())
+	}
+	return false
+}
+
+// oldTableSource: the value is a table loaded from memory reachable from a
+// parameter (the source font), possibly cloned, re-sliced or converted; the
+// load is returned.
+func oldTableSource(v ssa.Value, depth int) *ssa.UnOp {
+	if depth > 6 {
+		return nil
+	}
+	switch x := v.(type) {
+	case *ssa.UnOp:
+		if x.Op != token.MUL {
+			return nil
+		}
+		for a := x.X; ; {
+			switch y := a.(type) {
+			case *ssa.FieldAddr:
+				a = y.X
+				continue
+			case *ssa.IndexAddr:
+				a = y.X
+				continue
+			case *ssa.UnOp:
+				a = y.X
+				continue
+			case *ssa.Parameter:
+				return x
+			}
+			return nil
+		}
+	case *ssa.ChangeType:
+		return oldTableSource(x.X, depth+1)
+	case *ssa.Slice:
+		return oldTableSource(x.X, depth+1)
+	case *ssa.Phi:
+		for _, e := range x.Edges {
+			if s := oldTableSource(e, depth+1); s != nil {
+				return s
+			}
+		}
+	case *ssa.Call:
+		if callee := x.Call.StaticCallee(); callee != nil {
+			n := callee.Name()
+			pk := fnPkgPath(callee)
+			if (strings.HasPrefix(n, "Clone") || strings.HasPrefix(n, "Compact") || strings.HasPrefix(n, "Clip")) && (strings.HasSuffix(pk, "slices") || strings.HasSuffix(pk, "maps")) && len(x.Call.Args) > 0 {
+				return oldTableSource(x.Call.Args[0], depth+1)
+			}
+		}
+		if bi, ok := x.Call.Value.(*ssa.Builtin); ok && bi.Name() == "append" && len(x.Call.Args) == 2 {
+			// append(base, old...): the spread argument is the old table
+			if s := oldTableSource(x.Call.Args[1], depth+1); s != nil {
+				return s
+			}
+			return oldTableSource(x.Call.Args[0], depth+1)
+		}
+	}
+	return nil
 }
